@@ -271,6 +271,10 @@ class Gen:
             f = s.forced(p)
             if f is not None:
                 return f
+            if s.pol.num == 'min':
+                return 0                                # one mask byte, nothing else
+            if s.pol.num == 'max' or r.random() < 0.15:
+                return int.from_bytes(bytes(r.randint(1, 255) for _ in range(8)), 'little')   # full width: mask + 8 bytes
             g = r.getrandbits(64)
             for i in range(8):
                 if r.random() < 0.4:
@@ -455,7 +459,7 @@ POLICY_VARIANTS = [
     Policy(arr=1, string='rand', num='max', opt=True, flag='all'),
     Policy(arr=2, string='rand', num='rand', opt='rand', flag='rand'),
     Policy(arr='big', string='max', num='rand', opt=True, flag='rand'),
-    Policy(arr='lim255', string='rand', num='rand', opt=True, flag='rand'),
+    Policy(arr='lim255', string='rand', num='max', opt=True, flag='rand'),     # the largest encoding a u8-counted array can have
     Policy(arr='lim256', string='rand', num='rand', opt=True, flag='rand'),
 ]
 
